@@ -90,12 +90,15 @@ def make_program(meta, arg_bytes, rm):
         lines.append('    unsigned char b%d[] = {%s};' % (i, ', '.join(str(b) for b in bs)))
         lines.append('    %s a%d; std::memcpy(&a%d, b%d, sizeof a%d < sizeof b%d ? sizeof a%d : sizeof b%d);' % (pt, i, i, i, i, i, i, i))
         names.append('a%d' % i)
-    lines.append('    std::fesetround(%s);' % RM_FE[rm])
+    # volatile function pointer + compiler barriers: GCC may otherwise move the (const-looking) call across fesetround
+    lines.append('    decltype(&%s) volatile fp_ = &%s;' % (meta['name'], meta['name']))
+    lines.append('    std::fesetround(%s); __asm__ __volatile__("" ::: "memory");' % RM_FE[rm])
     lines.append('    unsigned before = _mm_getcsr_compat();')
     if meta['rtype'] == 'void':
-        lines.append('    %s(%s);' % (meta['name'], ', '.join(names)))
+        lines.append('    fp_(%s);' % ', '.join(names))
     else:
-        lines.append('    auto r = %s(%s);' % (meta['name'], ', '.join(names)))
+        lines.append('    auto r = fp_(%s);' % ', '.join(names))
+    lines.append('    __asm__ __volatile__("" ::: "memory");')
     lines.append('    unsigned after = _mm_getcsr_compat();')
     lines.append('    std::fesetround(FE_TONEAREST);')
     if meta['rtype'] != 'void':
